@@ -568,6 +568,16 @@ fn st_op(args: &[&str]) -> Resp {
             let msg = TlsMessage::Handshake(TlsMessageHandshake::ClientHello(ch));
             Ok(transition(state, &msg, to_server))
         }
+        // a *constructed* ServerHello (TlsServerHelloContents::new) of any version, e.g. the draft-18 number in the 1.2 structure
+        "shnew" => {
+            nargs(rest, 2)?;
+            let v = num_u16(rest[0])?;
+            let ext = opt_h(rest[1])?;
+            let random = [9u8; 32];
+            let sh = TlsServerHelloContents::new(v, &random, None, 0x2f, 0, ext.as_deref());
+            let msg = TlsMessage::Handshake(TlsMessageHandshake::ServerHello(sh));
+            Ok(transition(state, &msg, to_server))
+        }
         "ccs" => {
             nargs(rest, 0)?;
             Ok(transition(state, &TlsMessage::ChangeCipherSpec, to_server))
